@@ -205,6 +205,8 @@ def _run_shard(args):
             failure = _run_enum(sub, ctx)
         elif sub.kind == "machine":
             failure = _run_machine(sub, ctx, budget)
+        elif sub.kind == "fuzz":
+            failure = _run_fuzz(sub, ctx, budget)
         else:
             raise RuntimeError(f"unknown kind {sub.kind}")
     except Exception as e:  # harness error
@@ -284,6 +286,60 @@ def _run_machine(sub, ctx, budget):
         v = box.get("v", v)
         return dict(msg=v.msg, case=v.case, detail=v.detail)
     return None
+
+
+def _run_fuzz(sub, ctx, budget):
+    """Coverage-guided campaign (atheris / libFuzzer) in a subprocess: `budget` executions, libFuzzer seed derived
+    from VERIF_SEED, empty starting corpus in a scratch directory that is removed afterwards.  The semantic oracle
+    is inside the target (sub.machine names the module); a disagreement comes back as a JSON case."""
+    import shutil
+    import subprocess
+    import tempfile
+    try:
+        import atheris  # noqa: F401
+    except ImportError:
+        ctx.count("fuzz-engine-unavailable")
+        return None
+    tmp = tempfile.mkdtemp(prefix="twv-fuzz-")
+    try:
+        out = os.path.join(tmp, "case.json")
+        corpus = os.path.join(tmp, "corpus")
+        os.makedirs(corpus)
+        seed = derive_seed(ctx.seed, ctx.prop, sub.name, ctx.shard) % (2 ** 31 - 1) + 1
+        env = dict(os.environ, PYTHONHASHSEED="0")
+        cmd = [sys.executable, "-m", sub.machine, out, f"-runs={budget}", f"-seed={seed}", "-max_len=256",
+               "-print_final_stats=1", f"-artifact_prefix={tmp}/", corpus]
+        p = subprocess.run(cmd, cwd=VERIF, env=env, capture_output=True, text=True)
+        stats = {}
+        if os.path.exists(out + ".stats"):
+            with open(out + ".stats") as f:
+                stats = json.load(f)
+        execs = None
+        for line in p.stderr.splitlines():
+            if line.startswith("stat::number_of_executed_units:"):
+                execs = int(line.split(":")[-1])
+            if line.startswith("stat::new_units_added:"):
+                ctx.count("corpus-units-added", int(line.split(":")[-1]))
+        n = execs if execs is not None else stats.get("execs", 0)
+        ctx.evaluations += n
+        # distinct non-trivial inputs cannot be counted exactly without keeping them all: count conservatively the
+        # corpus units libFuzzer kept (each has distinct coverage) that the target classified as non-trivial
+        for i in range(min(stats.get("nontrivial", 0), ctx.counters.get("corpus-units-added", 0))):
+            ctx.nontrivial.add(f"fuzz-{ctx.shard}-{i}")
+        for c, v in stats.get("classes", {}).items():
+            ctx.classes[c] += v
+        for i, smp in enumerate(stats.get("samples", [])[:2]):
+            ctx.samples.setdefault(f"fuzz-sample-{i}", smp)
+        if os.path.exists(out):
+            with open(out) as f:
+                case = json.load(f)
+            msg = case.pop("message", "disagreement")
+            return dict(msg=msg, case=case, detail=None)
+        if p.returncode != 0:
+            raise RuntimeError(f"fuzz target exited {p.returncode} without a case:\n{p.stderr[-1500:]}")
+        return None
+    finally:
+        shutil.rmtree(tmp, ignore_errors=True)
 
 
 # ---------------------------------------------------------------------------------------------------------
